@@ -137,6 +137,34 @@ def d2(cx: Cx, ob: Ob) -> None:
     s = cx.summary(fn, ob.id)
     data = ("param", fn.params[0].name)
     reached: dict[str, list] = {w: [] for w in WORLDS}
+    # what tells a remote location from a local path is a full URL scheme ("https://"): a bare "http" / "ftp" is
+    # also how a relative file name can start
+    seen_pre = set()
+    for ev, _ in s.walk():
+        if ev.kind != "guard":
+            continue
+        for x in subterms(ev.a):
+            if op(x) == "call" and callee_name(x) == "startswith" and op(x[1]) == "attr" and x[1][1] == data and x[2]:
+                pre = x[2][0]
+                if op(pre) == "bv":
+                    continue
+                elts = pre[1] if op(pre) in ("tuple", "list") else (pre,)
+                for e in elts:
+                    if is_const(e) and isinstance(e[1], str) and "://" not in e[1] and e[1] not in seen_pre:
+                        seen_pre.add(e[1])
+                        ob.violate(
+                            fn.qualname,
+                            where(fn, ev.line),
+                            f"_prepare takes a string for a remote location when it starts with {e[1]!r}: a local file whose (relative) path starts like that - 'http_prefixes.json', 'ftp_mirror/epm.json' - is fetched as a URL instead of opened, while the same file given as a Path loads",
+                            witness="from_prefix_map('http_prefixes.json') raises ValueError('unknown url type'), from_prefix_map(Path('http_prefixes.json')) works",
+                            detail="remote-test-too-wide",
+                        )
+    for x in [y for ev, _ in s.walk() if ev.kind == "guard" for y in subterms(ev.a) if op(y) == "call" and callee_name(y) == "any" and y[2] and op(y[2][0]) == "comp"]:
+        src_ = x[2][0][3][0][1]
+        for e in (src_[1] if op(src_) in ("tuple", "list") else ()):
+            if is_const(e) and isinstance(e[1], str) and "://" not in e[1] and e[1] not in seen_pre:
+                seen_pre.add(e[1])
+                ob.violate(fn.qualname, fn.where, f"_prepare takes a string for a remote location when it starts with {e[1]!r}, which is also how a local file name can start", detail="remote-test-too-wide")
     for o_, ctx in s.outcomes():
         if o_ is None:
             t, line = NONE, fn.node.lineno
